@@ -110,6 +110,33 @@ func runC03(c *Ctx) {
 		}
 	}
 
+	// R-SCHEMA-INDEX: arrow schema/column accessors with a computed index, in exposed functions, are bounded by the same object
+	nidx := 0
+	for _, fn := range sortedFuncs(exp) {
+		if _, ok := serverOwnedFns[shortName(fn)]; ok {
+			continue
+		}
+		for _, cs := range u.Calls(fn, Or(HasSuffix("arrow.Schema).Field"), HasSuffix("RecordBatch.Column"), HasSuffix("RecordBatch.ColumnName"))) {
+			if u.CoveredByRecover(cs.Instr) {
+				continue
+			}
+			var recv, idx ssa.Value
+			if cs.Common().IsInvoke() {
+				recv, idx = cs.Common().Value, cs.Arg(0)
+			} else {
+				recv, idx = cs.Arg(0), cs.Arg(1)
+			}
+			if _, isC := ConstInt(idx); isC {
+				continue // constant rows/columns are handled by R-ROW0 / schema equality
+			}
+			nidx++
+			okB, why := u.indexBoundedBy(cs.Instr, recv, idx)
+			r.Check(okB, "R-SCHEMA-INDEX", shortName(fn)+"|"+cs.Callee+"("+u.Describe(idx)+")", u.Pos(cs.Instr.Pos()), "index bounded by the indexed object: "+why,
+				"index "+u.Describe(idx)+" into "+u.Describe(recv)+" is bounded by a different object ("+why+") and no guard relates the two sizes: a client batch with more columns than the declared schema panics here with no recover on the stack")
+		}
+	}
+	r.Notes = append(r.Notes, "computed schema/column indexes examined: "+itoa(nidx))
+
 	// R-PARAMS-COVERED
 	if dp := c.Fn("R-PARAMS-COVERED", "deserializeParams"); dp != nil {
 		_, isExposed := exp[dp]
